@@ -152,6 +152,9 @@ func listDynDict(thorough bool) []cty.Value {
 		listOf(cty.Object(map[string]cty.Type{"a": cty.String}), objOf("a", S("x")), objOf("a", S("x"))),
 		listOf(cty.String, S("a"), cty.NullVal(cty.String), cty.NullVal(cty.String)),
 		listOf(cty.DynamicPseudoType, cty.NullVal(cty.DynamicPseudoType)),
+		// numbers that differ only beyond what a float64 can tell apart
+		listOf(cty.Number, parseNum("9007199254740992"), parseNum("9007199254740993"), parseNum("9007199254740992")),
+		listOf(cty.Number, parseNum("0.5"), parseNum("0.50000000000000000001"), parseNum("1000000000000000000000000000001"), parseNum("1000000000000000000000000000000")),
 	})
 	if thorough {
 		out = append(out,
@@ -173,6 +176,7 @@ func setDynDict(thorough bool) []cty.Value {
 		setOf(cty.Tuple([]cty.Type{cty.String, cty.Number}), tup(S("a"), N(1)), tup(S("b"), N(2))),
 		setOf(cty.String, S("a"), cty.NullVal(cty.String)),
 		setOf(cty.DynamicPseudoType),
+		setOf(cty.Number, parseNum("9007199254740992"), parseNum("9007199254740993")),
 	}
 	if thorough {
 		out = append(out,
